@@ -16,7 +16,7 @@ from ..ratinterp import Rat
 from .C06 import fold
 
 TOPO = "typhon/topography.py"
-EXPECT = {"C20.tiles": 3, "C20.overlap": 2, "C20.consts": 4, "C20.cache": 2, "C20.orient": 4, "C20.cover": 2, "C20.lonnorm": 2}
+EXPECT = {"C20.tiles": 3, "C20.overlap": 2, "C20.consts": 4, "C20.cache": 3, "C20.orient": 5, "C20.cover": 2, "C20.lonnorm": 2}
 
 
 def _tiles(ctx):
@@ -176,6 +176,19 @@ def rule_consts(ctx):
 
 def rule_cache(ctx):
     ctx.rule("C20.cache", "T1", "a tile is downloaded only if the file that is subsequently read does not exist")
+    # the cache directory is ONE absolute directory for every request: "~" is expanded by expanduser (expandvars leaves it as it is and the
+    # cache becomes the relative directory ./~/.cache/... of whatever the current directory happens to be)
+    dp = ctx.func(TOPO, "_get_data_path")
+    homes = [c_ for c_ in calls_in(dp.node, ("expanduser", "expandvars")) if c_.args and isinstance(c_.args[0], ast.Constant) and str(c_.args[0].value).startswith("~")]
+    if not homes:
+        hh = [c_ for c_ in calls_in(dp.node, ("home",))]
+        if not hh and "HOME" not in ast.unparse(dp.node):
+            raise AnalysisError("_get_data_path: how the home directory of the default cache path is found was not understood")
+    bad_home = [str(norm(c_)) for c_ in homes if (dotted(c_.func) or "").split(".")[-1] == "expandvars"]
+    ctx.ob("_get_data_path.home", not bad_home, "home directory from: %s" % ([str(norm(c_)) for c_ in homes] or "Path.home() / $HOME"),
+           "os.path.expanduser('~'): one absolute cache directory (with expandvars('~') a directory named '~' is created under the current directory, and after a chdir "
+           "the cached tile is downloaded again)", node=homes[0] if homes else dp.node, func=dp,
+           witness=None if not bad_home else {"TYPHON_DATA_PATH / XDG_CACHE_HOME": "unset", "cache directory": "./~/.cache/typhon/topography"})
     f = ctx.func(TOPO, "SRTM30.get_tile")
     dl = calls_in(f.node, "download_tile")
     ff = calls_in(f.node, "fromfile")
@@ -258,10 +271,34 @@ def rule_orient(ctx):
     ctx.ob("SRTM30.elevation.assign", ok_a, "%s with tile = %s; returns %s" % (norm(st0)[:60], norm(src), norm(rets[-1].value) if rets else None),
            "block[mask_d] = SRTM30.get_tile(t)[mask_s]; (lats, lons, block) returned", node=st0, func=f)
     # every tile is processed: nothing leaves the loop early
-    jumps = [norm(n) for n in walk_no_nested(lp) if isinstance(n, (ast.Break, ast.Continue, ast.Return))]
+    # ... except a tile whose destination mask is empty (no cell of the block lies in it): skipping that one changes nothing
+    dname = st0.targets[0].slice.id if isinstance(st0.targets[0].slice, ast.Name) else None
+    jumps = []
+    harmless = []
+    for n in walk_no_nested(lp):
+        if isinstance(n, (ast.Break, ast.Return)):
+            jumps.append(str(norm(n)))
+        elif isinstance(n, ast.Continue):
+            g_ = parent(n)
+            t_ = str(norm(g_.test)).replace(" ", "") if isinstance(g_, ast.If) and len(g_.body) == 1 and not g_.orelse else None
+            if dname is not None and t_ in ("not%s.any()" % dname, "notnp.any(%s)" % dname, "%s.sum()==0" % dname, "notnp.count_nonzero(%s)" % dname):
+                harmless.append(t_)
+            else:
+                jumps.append("continue under %s" % (t_ or "?"))
     it = flow.resolve(lp.iter, at=lp, depth=1)
-    ctx.ob("SRTM30.elevation.all_tiles", not jumps and norm(it) == norm(gt[0]), "loop over %s; early exits: %s" % (norm(lp.iter), jumps or "none"),
-           "every tile named by get_tiles contributes its part of the block (no break / continue)", node=lp, func=f)
+    ctx.ob("SRTM30.elevation.all_tiles", not jumps and norm(it) == norm(gt[0]), "loop over %s; early exits: %s; skipped when the destination mask is empty: %s" % (
+        norm(lp.iter), jumps or "none", bool(harmless)),
+           "every tile named by get_tiles contributes its part of the block (no break / continue, except for a tile with an empty destination mask)", node=lp, func=f)
+    # a tile is fetched (possibly downloaded) only when it contributes a cell: the bounds handed to get_tiles are cell centres +- half a
+    # cell and carry round-off, so a rectangle that touches a tile border exactly lists the neighbour across the border
+    gtile = [c_ for c_ in calls_in(lp, "get_tile")]
+    if len(gtile) != 1:
+        raise AnalysisError("elevation: the fetch of the tile (get_tile) inside the loop was not found")
+    guarded_fetch = bool(harmless) and any(isinstance(st_, ast.If) and any(isinstance(x, ast.Continue) for x in st_.body)
+                                           and flow._order(st_) < flow._order(enclosing_stmt(gtile[0])) for st_ in lp.body)
+    ctx.ob("SRTM30.elevation.fetch_needed", guarded_fetch, "get_tile is reached %s" % ("only after `if not %s.any(): continue`" % dname if guarded_fetch else "for every listed tile"),
+           "a tile whose destination mask is empty is skipped BEFORE it is fetched: no download (and no failure offline) for a neighbour that contributes nothing",
+           node=gtile[0], func=f, witness=None if guarded_fetch else {"cache": "only W020N40", "elevation": "(-10, 10, -9, 11)", "downloads": "w020s10"})
     # snapped bounds and inputs of the loop
     bv = [norm(flow.resolve(a_, at=gt[0], depth=2, stop=(LD, OD))).replace(" ", "") for a_ in gt[0].args]
     want_b = ["np.min(%s)-0.5*SRTM30._dlat" % LD, "np.min(%s)-0.5*SRTM30._dlon" % OD, "np.max(%s)+0.5*SRTM30._dlat" % LD, "np.max(%s)+0.5*SRTM30._dlon" % OD]
